@@ -155,11 +155,13 @@ class ViewTranslator:
             raise OutOfModel("byte order %r" % byte_order)
         if td.has_field("external"):
             name = tuple(td.name.canonical_name.object_path)
-            kinds = {("UInt",): "KU", ("Int",): "KI", ("Bcd",): "KBcd", ("Flag",): "KFlag"}
+            kinds = {("UInt",): "KU", ("Int",): "KI", ("Bcd",): "KBcd", ("Flag",): "KFlag", ("Float",): "KFloat"}
             if td.name.canonical_name.module_file or name not in kinds:
                 raise OutOfModel("external %r" % (name,))
             if size_bits is None:
                 raise OutOfModel("scalar of unknown size")
+            if name == ("Float",) and size_bits not in (32, 64):
+                raise OutOfModel("float width")
             return "(FScalar %s %s %s)" % (kinds[name], _z(size_bits), bo)
         if td.has_field("enumeration"):
             sg = ir_util.get_boolean_attribute(td.attribute, "is_signed")
@@ -252,6 +254,9 @@ class ViewTranslator:
                     % (expr_read, expr_read))
         if which == "boolean":
             return "out((%s) ? 1 : 0);" % expr_read
+        if which == "float":
+            # the model carries the bit pattern of a Float field (View.Model.KFloat)
+            return "outv(float_bits(%s));" % expr_read
         return "outv(%s);" % expr_read
 
     def _dump_type(self, ty, t, acc, depth):
@@ -269,7 +274,8 @@ class ViewTranslator:
         if td.has_field("structure"):
             return "dump_T%d(%s);" % (self.tid[hashable(td.name.canonical_name)], acc)
         which = "enumeration" if td.has_field("enumeration") else (
-            "boolean" if tuple(td.name.canonical_name.object_path) == ("Flag",) else "integer")
+            "boolean" if tuple(td.name.canonical_name.object_path) == ("Flag",) else
+            "float" if tuple(td.name.canonical_name.object_path) == ("Float",) else "integer")
         return "if (%s.Ok()) { %s }" % (acc, self._dump_value(acc + ".Read()", which))
 
     def _dump_elem(self, base, t, e, depth):
@@ -339,6 +345,8 @@ class ViewTranslator:
              'static void outv(unsigned char x) { ::std::printf(" %u", (unsigned)x); }',
              'static void outv(signed char x) { ::std::printf(" %d", (int)x); }',
              'static void outv(bool x) { ::std::printf(" %d", x ? 1 : 0); }',
+             'static unsigned long long float_bits(float f) { ::std::uint32_t u; ::std::memcpy(&u, &f, sizeof u); return u; }',
+             'static unsigned long long float_bits(double d) { ::std::uint64_t u; ::std::memcpy(&u, &d, sizeof u); return u; }',
              'static void outm(::emboss::support::Maybe<bool> m) { out(m.Known() ? (m.ValueOrDefault() ? 1 : 0) : -1); }']
         # forward declarations then definitions (mutual nesting)
         for k, tt in enumerate(self.types):
@@ -388,12 +396,15 @@ def _scalar_paths(tr, t, acc, depth, out):
                     out.append("{ auto arr = %s.%s(); for (::std::size_t i = 0; i < arr.ElementCount() && i < 4; ++i) { auto el = arr[i]; %s } }"
                                % (acc, n, " ".join(inner)))
             else:
-                out.append("{ auto arr = %s.%s(); for (::std::size_t i = 0; i < arr.ElementCount() && i < 4; ++i) { try_writes(arr[i]); } }" % (acc, n))
+                fn = "try_writes_float" if tuple(td.name.canonical_name.object_path) == ("Float",) and not td.name.canonical_name.module_file else "try_writes"
+                out.append("{ auto arr = %s.%s(); for (::std::size_t i = 0; i < arr.ElementCount() && i < 4; ++i) { %s(arr[i]); } }" % (acc, n, fn))
             continue
         td = ir_util.find_object(ty.atomic_type.reference, tr.ir)
         if td.has_field("structure"):
             if depth < 3:
                 _scalar_paths(tr, td, "%s.%s()" % (acc, n), depth + 1, out)
+        elif tuple(td.name.canonical_name.object_path) == ("Float",) and not td.name.canonical_name.module_file:
+            out.append("try_writes_float(%s.%s());" % (acc, n))
         else:
             out.append("try_writes(%s.%s());" % (acc, n))
 
@@ -421,6 +432,12 @@ def safety_driver(tr, header, top_index, buffers):
          "  (void)f.Ok();",
          "  const long long vals[] = {0, 1, 2, 9, 10, 127, 128, 255, 256, 1000, 65535, 65536, -1, -128, -129, 2147483647LL, -2147483647LL - 1, 4294967295LL};",
          "  for (long long x : vals) { VT y = static_cast<VT>(x); bool c = f.CouldWriteValue(y); bool w = f.TryToWrite(y); sink += c + w; if (f.Ok()) sink += static_cast<long long>(f.Read()); }",
+         "}",
+         "template <class F> void try_writes_float(F f) {",
+         "  typedef typename ::std::decay<decltype(::std::declval<F>().Read())>::type VT;",
+         "  (void)f.Ok();",
+         "  const VT vals[] = {VT(0), -VT(0), VT(1), VT(-2.5), ::std::numeric_limits<VT>::infinity(), -::std::numeric_limits<VT>::infinity(), ::std::numeric_limits<VT>::quiet_NaN(), ::std::numeric_limits<VT>::denorm_min(), ::std::numeric_limits<VT>::max()};",
+         "  for (VT y : vals) { bool c = f.CouldWriteValue(y); bool w = f.TryToWrite(y); sink += c + w; if (f.Ok()) sink += static_cast<long long>(float_bits(f.Read()) & 0xff); }",
          "}",
          "template <class F> void try_writes_small(F f) {   // virtual fields: arguments inside the int32 range of the transform (finding F8 is probed separately)",
          "  typedef typename ::std::decay<decltype(::std::declval<F>().Read())>::type VT;",
